@@ -43,7 +43,8 @@ func (f *Oddp) Call(s *slip.Scope, args slip.List, depth int) slip.Object {
 	slip.CheckArgCount(s, depth, f, args, 1, 1)
 	switch ta := args[0].(type) {
 	case slip.Fixnum:
-		if ta%2 == 1 {
+		// The remainder of a negative odd number is -1.
+		if ta%2 != 0 {
 			return slip.True
 		}
 	case slip.Octet:
